@@ -173,6 +173,53 @@ def stobads_setting_kept(ctx, rep):
     return n
 
 
+def seed_option_effective_when_interleaved(ctx, rep):
+    """options['random_seed'] of an instance takes effect for ITS run whatever other instances (with their own seeds) were constructed or
+    run between its construction and its optimize(): the points it evaluates are those of the same instance constructed and run alone."""
+    from pybads import BADS
+    rng = ctx.sub_rng("c20seed")
+    n = 0
+    for order in (("cA", "cB", "rA"), ("cA", "cB", "rB", "rA"), ("cB", "cA", "rB", "rA")) if ctx.quick else \
+            (("cA", "cB", "rA"), ("cA", "cB", "rB", "rA"), ("cB", "cA", "rB", "rA"), ("cA", "cB", "rA", "rB"), ("cB", "rB", "cA", "rA"), ("cA", "cB", "cB", "rA")):
+        D = rng.choice([1, 2, 2])
+        sA, sB = rng.randint(1, 10 ** 5), rng.randint(1, 10 ** 5)
+        noisy = rng.random() < 0.3
+
+        def mk(seed, log, shift):
+            def tf(x):
+                log.append([float(v) for v in np.ravel(x)])
+                return float(np.sum((np.asarray(x) - shift) ** 2)) + (0.1 * np.random.randn() if noisy else 0.0)
+            o = {"display": "off", "max_fun_evals": (D + 30) if not noisy else 60, "n_search": 32, "random_seed": seed, "noise_final_samples": 0}
+            if noisy:
+                o["uncertainty_handling"] = True
+            return BADS(tf, np.full(D, 0.3), np.full(D, -4.0), np.full(D, 6.0), np.full(D, -2.0), np.full(D, 3.0), options=o)
+        case = {"kind": "options_run", "D": D, "user_keys": ["random_seed"], "order": list(order)}
+        try:
+            ref = []
+            mk(sA, ref, 0.7).optimize()
+            got, other = [], []
+            inst = {}
+            for step in order:
+                if step == "cA":
+                    inst["A"] = mk(sA, got, 0.7)
+                elif step == "cB":
+                    inst["B"] = mk(sB, other, -0.4)
+                elif step == "rA":
+                    inst["A"].optimize()
+                else:
+                    inst["B"].optimize()
+        except Exception as ex:
+            rep.disagree("Opt.load ~ BADS (interleaved instances)", f"{type(ex).__name__}: {str(ex)[:80]}", case)
+            continue
+        n += 1
+        if got != ref:
+            k = next((i for i, (a, b) in enumerate(zip(got, ref)) if a != b), min(len(got), len(ref)))
+            rep.violation("user_wins", "bads.py:random_seed", f"D={D}: instance A (random_seed={sA}) constructed and run in the order {'-'.join(order)} with another instance B (random_seed={sB}) "
+                          f"evaluates other points than A constructed and run alone (first difference at evaluation #{k}: {got[k] if k < len(got) else None} vs {ref[k] if k < len(ref) else None}): "
+                          f"its own random_seed did not take effect for its run", case)
+    return n
+
+
 def options_survive_faulted_runs(ctx, rep):
     """Runs in which GP fits fail (and, with use_slice_sampler=True, the sampler that supplies the restart point fails too): whatever the
     recovery paths do, the options the user supplied still hold the supplied values afterwards."""
@@ -230,7 +277,7 @@ def options_survive_faulted_runs(ctx, rep):
 
 def run(ctx):
     rep = Report()
-    nmut = mutable_values_through_a_run(ctx, rep) + options_survive_faulted_runs(ctx, rep) + stobads_setting_kept(ctx, rep)
+    nmut = mutable_values_through_a_run(ctx, rep) + options_survive_faulted_runs(ctx, rep) + stobads_setting_kept(ctx, rep) + seed_option_effective_when_interleaved(ctx, rep)
     rng = ctx.sub_rng("c20")
     basic, adv = files()
     names = [k for k, _ in basic] + [k for k, _ in adv]
